@@ -13,7 +13,7 @@
     graphs only the abstract statement is proved (c02_portgraph_partial). *)
 From PM Require Import Model.Prelude Model.Domain Model.Automaton Model.DomString Model.DomMatrix
   Model.Traversal Spec.Occ Cert.WfCheck Cert.WinCheck Cert.CharCert Cert.ExampleAut Proofs.WinSound Proofs.StringRun
-  Model.DomPGKeys Model.DomPG Cert.PGCert Proofs.PGComplete Proofs.MatrixRun.
+  Model.DomPGKeys Model.DomPG Model.DomPGPattern Cert.PGCert Proofs.PGComplete Proofs.PGEmbedComplete Proofs.MatrixRun.
 
 Theorem c02_cert_complete_partial :
   forall (K P : Type) (entails refutes : list (constraint K P) -> constraint K P -> bool)
@@ -56,6 +56,28 @@ Theorem c02_portgraph_partial :
     nth_error cs i = Some cp -> nth_error present i = Some true ->
     (forall d, In d cp -> pgval h m d = true) -> aaccepts (pgval h m) A (N.of_nat i).
 Proof. exact pg_cert_complete_sound. Qed.
+
+(** port graphs, from embeddings: an injective, link-preserving map [f] of the
+    pattern into a well-formed host satisfies the pattern's constraint vector
+    under the bindings it induces, hence is accepted (abstract semantics) by
+    every automaton that passes the completeness certificate.  [lines_sound],
+    [keys_distinct] are per-pattern validations of the modelled conversion,
+    [pg_host_wfb] holds of every PortGraph; all three are evaluated by the check. *)
+Theorem c02_portgraph_embedding_accepted :
+  forall (A : automaton pgkey pgpred) (cs : list (list pgconstraint)) (present : list bool) i
+         (P : pghost) (root : N) (H : pghost) (f : N -> N) cp nk,
+    cert_complete pg_entails pg_refutes A cs present = true ->
+    nth_error cs i = Some cp -> nth_error present i = Some true ->
+    pg_cvec_full P root = Ok (cp, nk) -> lines_sound P root = true -> keys_distinct nk = true ->
+    pg_host_wfb H = true ->
+    (forall a oa b ib, In (a, oa, b, ib) (pg_links P) -> In (f a, oa, f b, ib) (pg_links H)) ->
+    (forall u k u' k', In (u, k) nk -> In (u', k') nk -> u <> u' -> f u <> f u') ->
+    aaccepts (pgval H (bind_of f nk)) A (N.of_nat i).
+Proof.
+  intros A cs present i P root H f cp nk CC Hn Hp CV Hls Hkd Hwf Hl Hinj.
+  apply (pg_cert_complete_sound A cs present i cp H (bind_of f nk) CC Hn Hp).
+  exact (pg_embedding_satisfies P root H f cp nk CV Hls Hkd Hwf Hl Hinj).
+Qed.
 
 (** strings, the run itself: an automaton (as dumped from the implementation)
     that passes the three certificate checks reports, for every host [h], every
@@ -107,3 +129,4 @@ Print Assumptions c02_string.
 Print Assumptions c02_matrix.
 Print Assumptions c02_matrix_partial.
 Print Assumptions c02_portgraph_partial.
+Print Assumptions c02_portgraph_embedding_accepted.
